@@ -184,7 +184,7 @@ def run_case(ctx, i, rng):
             kinds_all += k4
             cables = []
             for nm in cn:
-                w = r.choice([1, 1, 2])
+                w = r.choice([1, 1, 2]) if len(nm) <= 240 or r.random() < 0.5 else r.choice([2, 11, 101])   # (bit suffixes of 3 to 5 characters)
                 if w > 1 and len(nm) > 240 and common.fenced(me, "long-bus-net-bit-identifier-too-long"):
                     ctx.count("fenced:long-bus-name")
                     w = 1
